@@ -30,6 +30,7 @@ AllOk(e) == \A k \in 1..NK(e) : IsOk(KidRes(e, k))
 Roles(e) == { KidRole(e, k) : k \in 1..NK(e) }
 Val(e, role) == LET k == CHOOSE k \in 1..NK(e) : KidRole(e, k) = role IN KidRes(e, k)[2]
 
+ScalarKinds == {"num", "str", "bool", "nan", "inf"}          \* (a time is a Go struct: a missing field is an error)
 \* expected result of a node whose evaluated children all succeeded: <<"v", value>> | <<"e">> | <<"u">>
 Step(e, st) ==
   CASE e.kind = "Lit" -> IF e.lit[1] = "Kw" /\ e.lit[2] \in {"this", "ctx"} THEN <<"u">> ELSE <<"v", LitValue(e.lit[1], e.lit[2])>>
@@ -39,7 +40,10 @@ Step(e, st) ==
     [] e.kind = "Arr" -> IF Roles(e) = 1..e.n THEN <<"v", Arr([k \in 1..e.n |-> Val(e, k)])>> ELSE <<"bad">>
     [] e.kind = "Pre" -> IF Roles(e) = {1} THEN PrefixOp(e.op, Val(e, 1)) ELSE <<"bad">>
     [] e.kind = "Typeof" -> <<"u">>
-    [] e.kind = "Sel" -> IF Roles(e) = {0} THEN Member(Val(e, 0), e.name, e.assert) ELSE <<"bad">>
+    \* "x!.k is an error exactly when x is null": on any other receiver whose member is not pinned the result is still no error
+    [] e.kind = "Sel" -> IF Roles(e) # {0} THEN <<"bad">>
+                         ELSE LET mm == Member(Val(e, 0), e.name, e.assert) IN
+                              IF mm[1] = "u" /\ e.assert /\ Val(e, 0)[1] \in ScalarKinds THEN <<"noerr">> ELSE mm
     [] e.kind = "Cond" ->
          IF 1 \notin Roles(e) THEN <<"bad">>
          ELSE IF IsOneOf(Val(e, 1)) THEN <<"u">>
@@ -85,9 +89,10 @@ NodeOK(e, st) ==
           CASE s[1] = "bad" -> FALSE
             [] s[1] = "u" -> TRUE
             [] s[1] = "e" -> ~IsOk(e.res)
+            [] s[1] = "noerr" -> IsOk(e.res)
             [] s[1] = "v" -> IsOk(e.res) /\ (IF s[2][1] = "oneof" THEN \E j \in 2..Len(s[2]) : Same(s[2][j], e.res[2])
                                              ELSE IF s[2][1] = "strnum" THEN e.res[2][1] = "str" ELSE Same(s[2], e.res[2]))
-Pinned(e, st) == AllOk(e) /\ (DivNode(e) \/ Step(e, st)[1] \in {"v", "e"})
+Pinned(e, st) == AllOk(e) /\ (DivNode(e) \/ Step(e, st)[1] \in {"v", "e", "noerr"})
 
 Init == i = 1 /\ store = <<>> /\ bad = <<>> /\ npin = 0
 StepEvent ==
